@@ -339,7 +339,7 @@ int AsmContext::assemble()
     }
   }
 
-  if (error == true) { return -1; }
+  if (error == true || error_count > 0) { return -1; }
 
   return 0;
 }
